@@ -3,6 +3,7 @@ package core
 import (
 	"fmt"
 	"runtime"
+	"runtime/debug"
 	"sort"
 	"strings"
 	"sync"
@@ -38,6 +39,9 @@ type Sched struct {
 	ChangeEvery int
 	prio        map[string]int
 	low         int
+	// OnPanic, when set, receives a panic that escapes a task started with Go
+	// (the task then simply ends); without it the panic takes the process down.
+	OnPanic func(task string, p any, stack []byte)
 	// OnStep, when set, is called with the released task before it runs.
 	OnStep func(t *Task, nparked int)
 	// Overrun is set when MaxStep was exceeded and the scheduler let go.
@@ -154,6 +158,14 @@ func (s *Sched) Go(name string, f func()) {
 	go func() {
 		s.Name(name)
 		s.Yield("start")
+		defer func() {
+			if s.OnPanic == nil {
+				return
+			}
+			if p := recover(); p != nil {
+				s.OnPanic(name, p, debug.Stack())
+			}
+		}()
 		f()
 	}()
 }
